@@ -1,7 +1,7 @@
 package main
 
 func init() {
-	props["C01"] = cfg("./c01", true, withShards(2, 16), withAssume(
+	props["C01"] = cfg("./c01", true, withShards(2, 6), withAssume(
 		"schedules are sampled (generated programs, perturbations and exporter latencies, each program run twice under the race detector), not enumerated",
 		"visibility is asserted only for ForceFlush/Shutdown calls that returned nil and do not overlap a Shutdown call",
 		"the processor's dropped counter is read from its 'exporting spans … total_dropped' debug log line",
